@@ -229,6 +229,21 @@ def main : IO UInt32 := do
     (fun p => showM bstr (Gen.Tr.checkAllowedEmails E0 (mkA p.1) p.2)) (fun p => bstr (Authz.checkAllowedEmails p.1 ⟨p.2.Email, p.2.Groups⟩)))
   bad := bad + (← firstDiff "checkAllowedGroups" acases showA
     (fun p => showM bstr (Gen.Tr.checkAllowedGroups E0 (mkA p.1) p.2)) (fun p => bstr (Authz.checkAllowedGroups p.1 ⟨p.2.Email, p.2.Groups⟩)))
+  -- OAuth state and nonce helpers (the lenient decoder of the search: "x…" decodes to "…", everything else to itself)
+  let len0 : Str → Str := fun t => match t with | 'x' :: r => r | r => r
+  let Es : Go.Ext := { E0 with b64RawUrlLenient := len0 }
+  let sts : List Str := (["", ":", "n:/a", "n:/a:b", "n", ":/a", "n:", "xn:/a", "x", "xn", "n:/wiki/Help:Contents", "n:https://a.b/x?t=10:30"] : List String).map String.toList
+  let showSt : Option (Str × Str) → String := fun o => match o with | none => "error" | some (a, b) => "nonce=" ++ q a ++ " redirect=" ++ q b
+  bad := bad + (← firstDiff "decodeState" ([true, false].flatMap fun e => sts.map fun t => (e, t)) (fun p => "encode=" ++ toString p.1 ++ " state=" ++ q p.2)
+    (fun p => showM (fun r => showSt (match r.2.2 with | none => some (r.1, r.2.1) | some _ => none)) (Gen.Tr.decodeState Es p.2 p.1))
+    (fun p => showSt (decodeStateRaw (if p.1 then len0 p.2 else p.2))))
+  bad := bad + (← firstDiff "encodeState" ([true, false].flatMap fun e => sts.map fun t => (e, t)) (fun p => "encode=" ++ toString p.1 ++ " nonce=\"n\" redirect=" ++ q p.2)
+    (fun p => showM q (Gen.Tr.encodeState Es ['n'] p.2 p.1))
+    (fun p => q (if p.1 then b64Encode true false (encodeStateRaw ['n'] p.2) else encodeStateRaw ['n'] p.2)))
+  let nonces : List (Option Str) := [none, some [], some ['a'], some ['a', 'b']]
+  let hashes : List Str := [[], b64Encode true false (toySha ['a']), b64Encode true false (toySha []), (b64Encode true false (toySha ['a'])).dropLast ++ ['A'], b64Encode true false (toySha ['a']) ++ ['\n'], ['x']]
+  bad := bad + (← firstDiff "CheckNonce" (nonces.flatMap fun n => hashes.map fun h => (n, h)) (fun p => "nonce=" ++ (match p.1 with | none => "nil" | some v => q v) ++ " hashed=" ++ q p.2)
+    (fun p => showM bstr (Gen.Tr.CheckNonce E0 p.1 p.2)) (fun p => bstr (checkNonce toySha p.1 p.2)))
   IO.println s!"trsearch: {bad} function(s) with a disagreement"
   return (if bad == 0 then 0 else 1)
 
